@@ -194,6 +194,29 @@ pub fn gen_session(r: &mut Rng, max: usize) -> Vec<AResponse> {
     (0..n).map(|_| gen_response(r)).collect()
 }
 
+/// A response carrying a very large binary part (beyond several doublings of the receive buffer),
+/// followed by one or two ordinary responses (which may arrive in the same read as its end).
+pub fn gen_huge_session(r: &mut Rng) -> Vec<AResponse> {
+    let base = *r.pick(&[66_000usize, 70_000, 98_000, 100_000, 131_072, 140_000, 200_000, 262_144, 270_000, 530_000]);
+    let n = base + r.below(3000);
+    let mut payload = vec![0u8; n];
+    for (i, b) in payload.iter_mut().enumerate() {
+        *b = if i % 101 == 0 { b'\n' } else { (i as u32).wrapping_mul(2654435761) as u8 };
+    }
+    let mut out = vec![AResponse::ok_single(AFrame { fields: vec![("size".into(), format!("{}", n)), ("type".into(), "image/png".into())], binary: Some((2, payload)) })];
+    for _ in 0..r.range(1, 2) {
+        let mut next = gen_response(r);
+        // keep the follow-ups small
+        for f in next.frames.iter_mut() {
+            if let Some((_, b)) = f.binary.as_mut() {
+                b.truncate(200);
+            }
+        }
+        out.push(next);
+    }
+    out
+}
+
 /// A response whose encoded length is steered to land around a buffer edge (4096·2^k ± small).
 pub fn gen_edge_session(r: &mut Rng) -> Vec<AResponse> {
     let edge = 4096usize << r.below(3);
